@@ -198,6 +198,8 @@ class Engine:
         base = tyname.split("::")[-1]
         base = re.sub(r"<.*$", "", base)
         if base in rustsrc.BUILTIN_ENUMS:
+            if base == "Ordering" and "atomic" in tyname:
+                return EnumInfo("AtomicOrdering", ["Relaxed", "Release", "Acquire", "AcqRel", "SeqCst"])
             if base == "Ordering":
                 return EnumInfo("Ordering", rustsrc.BUILTIN_ENUMS[base], [-1, 0, 1])
             return EnumInfo(base, rustsrc.BUILTIN_ENUMS[base])
